@@ -511,7 +511,11 @@ func c18Ecdsa(co *caseOut, in c18xInput) {
 			continue
 		}
 		wd, err := keys.WIFDecode(ws, ver)
-		if err != nil || !bytes.Equal(wd.PrivateKey.Bytes(), priv.Bytes()) || wd.Compressed != comp || wd.Version != ver {
+		wantVer := ver
+		if wantVer == 0 { // documented alias: version 0 means the default WIFVersion on both sides
+			wantVer = keys.WIFVersion
+		}
+		if err != nil || !bytes.Equal(wd.PrivateKey.Bytes(), priv.Bytes()) || wd.Compressed != comp || wd.Version != wantVer {
 			bad("WIFDecode(WIFEncode(k)) differs", ws)
 		}
 		if _, err := keys.WIFDecode(ws, ver+1); err == nil {
